@@ -41,7 +41,45 @@ fn qqt(qm: &Mat) -> Mat {
 
 pub fn gen_spd(t: &mut Tape, tier: Tier) -> (Mat, &'static str) {
     let n = t.range(1, 8);
-    match t.below(8) {
+    match t.below(9) {
+        8 => {
+            // exact structural zeros for every n: diagonally dominant matrix with a sparse pattern (tridiagonal, arrow,
+            // block diagonal, random sparse), optionally under a symmetric permutation - Cholesky fill-in and early-vanishing
+            // powers of the nilpotent part depend on the pattern and on the ordering
+            let mut a = vec![vec![0.0; n]; n];
+            let pat = t.below(4);
+            let bs = t.range(1, 3);
+            for i in 0..n {
+                for j in 0..i {
+                    let on = match pat {
+                        0 => i == j + 1,
+                        1 => j == 0 || i == n - 1,
+                        2 => i / bs == j / bs,
+                        _ => t.chance(0.3),
+                    };
+                    if on {
+                        let v = t.uniform(-1.0, 1.0);
+                        a[i][j] = v;
+                        a[j][i] = v;
+                    }
+                }
+            }
+            for i in 0..n {
+                let s_: f64 = (0..n).map(|j| a[i][j].abs()).sum();
+                a[i][i] = s_ + t.uniform(0.05, 2.0);
+            }
+            if t.bool() {
+                let mut perm: Vec<usize> = (0..n).collect();
+                gen::shuffle(t, &mut perm);
+                let b = a.clone();
+                for i in 0..n {
+                    for j in 0..n {
+                        a[i][j] = b[perm[i]][perm[j]];
+                    }
+                }
+            }
+            (a, "sparse-pattern")
+        }
         7 => {
             // strongly coupled diagonal blocks (sizes 1..3) joined only through entries scaled by eps = 1e-6 .. 1e-30
             let g: Mat = (0..n).map(|_| (0..n).map(|_| t.uniform(-1.0, 1.0)).collect()).collect();
